@@ -1,5 +1,6 @@
 """C09 - example values replace <header> placeholders literally, everywhere they apply."""
 from . import compiler_rules as cr
+from . import misc_rules as ms
 
 META = {
     "level": "other",
@@ -17,3 +18,5 @@ def run(rep):
     cr.rule_fields(rep, "C09.sites")
     cr.rule_steps(rep, rid_sites="C09.sites", want=("sites",))
     cr.rule_input(rep, "C09.isolation")
+    # no hidden state: what the property promises for one use must hold for every later use as well
+    ms.rule_stateless(rep, "C09")
